@@ -10,6 +10,7 @@ package jsonschema
 import (
 	"errors"
 	"fmt"
+	"math"
 	"net/url"
 	"reflect"
 	"regexp"
@@ -341,6 +342,18 @@ func (s *Schema) checkLocal(report func(error), infos map[*Schema]*resolvedInfo)
 	if s.Vocabulary != nil && s.Schema != draft202012SchemaVersion {
 		addf("cannot validate a schema with $vocabulary")
 	}
+
+	// The numeric bounds are compared as exact rationals, which a number
+	// that is not finite cannot be converted to.
+	checkFinite := func(keyword string, f *float64) {
+		if f != nil && (math.IsNaN(*f) || math.IsInf(*f, 0)) {
+			addf("%s: %v is not a finite number", keyword, *f)
+		}
+	}
+	checkFinite("minimum", s.Minimum)
+	checkFinite("maximum", s.Maximum)
+	checkFinite("exclusiveMinimum", s.ExclusiveMinimum)
+	checkFinite("exclusiveMaximum", s.ExclusiveMaximum)
 
 	info := infos[s]
 
